@@ -48,3 +48,20 @@ func connInv(c *Conn) bool {
 // gvcDistinct7: pairwise distinct references (channels of different element types
 // cannot be compared in Go source).
 func gvcDistinct7(a, b, c, d, e, f, g any) bool { panic("ghost") }
+
+// RFC 7692 section 7.1.1: "client_no_context_takeover" constrains the compressor of
+// the client, "server_no_context_takeover" that of the server. The receiver of a
+// message therefore keeps a context iff the *peer's* (sender's) parameter is absent.
+func specReceiverNoTakeover(isClient bool, o *compressionOptions) bool {
+	if isClient {
+		return o.serverNoContextTakeover // the peer (server) compresses
+	}
+	return o.clientNoContextTakeover
+}
+
+func specSenderNoTakeover(isClient bool, o *compressionOptions) bool {
+	if isClient {
+		return o.clientNoContextTakeover
+	}
+	return o.serverNoContextTakeover
+}
